@@ -93,6 +93,10 @@ def mask_from_face_indexes(
     fill_value = topology.sensible_fill_value
     data_vars = {}
 
+    # The face indexes may be given in any order, a spatial index query
+    # for example does not return sorted results.
+    face_indexes = numpy.unique(face_indexes)
+
     def new_element_indexes(size: int, indexes: numpy.ndarray) -> numpy.ma.MaskedArray:
         new_indexes = numpy.full(
             (size,), fill_value=fill_value, dtype=topology.sensible_dtype)
